@@ -24,7 +24,7 @@ def genTables : Tables :=
     sdlEmptyTokenSpins := Gen.sdlEmptyTokenSpins,
     exeVarTypeOptional := Gen.exeVarTypeOptional,
     opFallbackAnyName := Gen.opFallbackAnyName,
-    nullVarUsesDefault := Gen.nullVarUsesDefault, argsInPlace := Gen.argsInPlace, argsSortedOnce := Gen.argsSortedOnce, condByIdentity := Gen.condByIdentity, writerIntKinds := Gen.writerIntKinds, anonAmongOthers := Gen.anonAmongOthers, metaArgsUnchecked := Gen.metaArgsUnchecked, ptrValueDistinct := Gen.ptrValueDistinct, unionAtMember := Gen.unionAtMember, impliedSchemaUnvalidated := Gen.impliedSchemaUnvalidated, dupDirectiveInlineAccepted := Gen.dupDirectiveInlineAccepted, listNeedsMember := Gen.listNeedsMember, reflectOptionalRefused := Gen.reflectOptionalRefused, eventVarsEmpty := Gen.eventVarsEmpty, symbolBaseEnum := Gen.symbolBaseEnum, inputDefaultsRaw := Gen.inputDefaultsRaw, objectUnchecked := Gen.objectUnchecked, schemaDuringScan := Gen.schemaDuringScan, descRaw := Gen.descRaw, toolOmitsDirectives := Gen.toolOmitsDirectives, assureOnce := Gen.assureOnce, dupMembersAccepted := Gen.dupMembersAccepted, opLineBeforeSkip := Gen.opLineBeforeSkip, inputNullTakesDefault := Gen.inputNullTakesDefault, dirLoopByVisited := Gen.dirLoopByVisited, typeLookupFindsDirectives := Gen.typeLookupFindsDirectives, argPosAfterToken := Gen.argPosAfterToken, subOrderByMap := Gen.subOrderByMap, dirRequiredUnchecked := Gen.dirRequiredUnchecked, dirRefTypeFirst := Gen.dirRefTypeFirst, extendSchemaNeedsSchema := Gen.extendSchemaNeedsSchema, dupKeyOverwrites := Gen.dupKeyOverwrites, maxParseDepth := Gen.maxParseDepth, unionFirstCome := Gen.unionFirstCome, ifaceNeedsBound := Gen.ifaceNeedsBound, shallowRollback := Gen.shallowRollback, inputExtendMapOrder := Gen.inputExtendMapOrder, toolEmbedRaw := Gen.toolEmbedRaw, dirArgWrapperAccepted := Gen.dirArgWrapperAccepted, dupScalarDropped := Gen.dupScalarDropped, subtypeNarrow := Gen.subtypeNarrow, argCountCheckOnly := Gen.argCountCheckOnly,
+    nullVarUsesDefault := Gen.nullVarUsesDefault, argsInPlace := Gen.argsInPlace, argsSortedOnce := Gen.argsSortedOnce, condByIdentity := Gen.condByIdentity, writerIntKinds := Gen.writerIntKinds, anonAmongOthers := Gen.anonAmongOthers, metaArgsUnchecked := Gen.metaArgsUnchecked, ptrValueDistinct := Gen.ptrValueDistinct, unionAtMember := Gen.unionAtMember, impliedSchemaUnvalidated := Gen.impliedSchemaUnvalidated, dupDirectiveInlineAccepted := Gen.dupDirectiveInlineAccepted, listNeedsMember := Gen.listNeedsMember, condStrict := Gen.condStrict, reflectOptionalRefused := Gen.reflectOptionalRefused, eventVarsEmpty := Gen.eventVarsEmpty, symbolBaseEnum := Gen.symbolBaseEnum, inputDefaultsRaw := Gen.inputDefaultsRaw, objectUnchecked := Gen.objectUnchecked, schemaDuringScan := Gen.schemaDuringScan, descRaw := Gen.descRaw, toolOmitsDirectives := Gen.toolOmitsDirectives, assureOnce := Gen.assureOnce, dupMembersAccepted := Gen.dupMembersAccepted, opLineBeforeSkip := Gen.opLineBeforeSkip, inputNullTakesDefault := Gen.inputNullTakesDefault, dirLoopByVisited := Gen.dirLoopByVisited, typeLookupFindsDirectives := Gen.typeLookupFindsDirectives, argPosAfterToken := Gen.argPosAfterToken, subOrderByMap := Gen.subOrderByMap, dirRequiredUnchecked := Gen.dirRequiredUnchecked, dirRefTypeFirst := Gen.dirRefTypeFirst, extendSchemaNeedsSchema := Gen.extendSchemaNeedsSchema, dupKeyOverwrites := Gen.dupKeyOverwrites, maxParseDepth := Gen.maxParseDepth, unionFirstCome := Gen.unionFirstCome, ifaceNeedsBound := Gen.ifaceNeedsBound, shallowRollback := Gen.shallowRollback, inputExtendMapOrder := Gen.inputExtendMapOrder, toolEmbedRaw := Gen.toolEmbedRaw, dirArgWrapperAccepted := Gen.dirArgWrapperAccepted, dupScalarDropped := Gen.dupScalarDropped, subtypeNarrow := Gen.subtypeNarrow, argCountCheckOnly := Gen.argCountCheckOnly,
     listNotCoerced := Gen.listNotCoerced, symbolUnchecked := Gen.symbolUnchecked,
     fieldPosAfterLookahead := Gen.fieldPosAfterLookahead,
     opErrPosAfterLookahead := Gen.opErrPosAfterLookahead,
